@@ -69,46 +69,80 @@ Proof. unfold files_of. apply flat_map_app. Qed.
 Lemma folders_of_app a b : folders_of (a ++ b) = folders_of a ++ folders_of b.
 Proof. unfold folders_of. apply flat_map_app. Qed.
 
-Lemma paginate_ok E path : forall cuts url items w s t n0 fuel,
+Lemma fresh_step url seen l :
+  mem_str url l = false -> forallb (fun x => negb (mem_str x seen)) l = true ->
+  forallb (fun x => negb (mem_str x (url :: seen))) l = true.
+Proof.
+  induction l as [|a l IH]; cbn [forallb]; intros Hm Hf; [reflexivity|].
+  cbn [mem_str] in Hm. apply orb_false_iff in Hm as [Hm1 Hm2]. apply andb_true_iff in Hf as [Hf1 Hf2].
+  rewrite (IH Hm2 Hf2), andb_true_r. cbn [mem_str].
+  assert (str_eqb a url = false) as ->.
+  { apply str_eqb_neq. apply str_eqb_neq in Hm1. congruence. }
+  exact Hf1.
+Qed.
+
+(* the urls of the pages are pairwise distinct and none was followed before: the loop guard stays silent *)
+Definition fresh (seen : list str) (l : list str) : bool :=
+  nodup_str_pre l && forallb (fun x => negb (mem_str x seen)) l.
+
+Lemma fresh_cons seen u l : fresh seen (u :: l) = true -> mem_str u seen = false /\ fresh (u :: seen) l = true.
+Proof.
+  unfold fresh. cbn [nodup_str_pre forallb]. intro H. apply andb_true_iff in H as [H1 H2].
+  apply andb_true_iff in H1 as [Hn Hd]. apply andb_true_iff in H2 as [Hs Hf].
+  apply negb_true_iff in Hn. apply negb_true_iff in Hs. split; [exact Hs|].
+  rewrite Hd. simpl. apply fresh_step; assumption.
+Qed.
+
+Lemma fresh_nil l : nodup_str_pre l = true -> fresh [] l = true.
+Proof.
+  intro H. unfold fresh. rewrite H. simpl. induction l as [|a l IH]; [reflexivity|].
+  cbn [forallb mem_str negb andb]. apply IH. simpl in H. apply andb_true_iff in H as [_ H]. exact H.
+Qed.
+
+Lemma paginate_ok E path : forall cuts url items seen w s t n0 fuel,
   serves w n0 t (pages url cuts items) -> cuts_ok cuts = true -> nonempty url = true ->
+  fresh seen (url :: map snd cuts) = true ->
   n0 <= nreq s -> tok s = Some t -> List.length cuts < fuel ->
-  run E w (list_items_paginated E fuel (Some url) path) s
+  run E w (list_items_paginated E fuel seen (Some url) path) s
   = (Ok (files_of E path items), adv s (api (url :: map snd cuts))).
 Proof.
-  induction cuts as [|[n link] cuts IH]; intros url items w s t n0 fuel Hs Hc Hu Hn Ht Hf;
-    (destruct fuel as [|f]; [simpl in Hf; lia|]).
-  - cbn [list_items_paginated truthy dflt]. rewrite Hu. cbn [run].
+  induction cuts as [|[n link] cuts IH]; intros url items seen w s t n0 fuel Hs Hc Hu Hfr Hn Ht Hf;
+    (destruct fuel as [|f]; [simpl in Hf; lia|]); apply fresh_cons in Hfr as [Hns Hfr].
+  - cbn [list_items_paginated truthy dflt]. rewrite Hu, Hns. cbn [run].
     erewrite get_json_ok; eauto; [|left; reflexivity].
     cbn [page_obj o_ok]. rewrite run_bind. cbn [page_obj o_next o_value]. destruct f; cbn [list_items_paginated truthy run];
       rewrite app_nil_r; reflexivity.
-  - cbn [list_items_paginated truthy dflt]. rewrite Hu. cbn [run].
+  - cbn [list_items_paginated truthy dflt]. rewrite Hu, Hns. cbn [run].
     erewrite get_json_ok; eauto; [|left; reflexivity].
     cbn [page_obj o_ok]. rewrite run_bind. cbn [page_obj o_next o_value].
     simpl in Hc. apply andb_true_iff in Hc as [Hl Hc]. cbn [snd] in Hl.
-    erewrite (IH link (skipn n items) w (adv s [(false, url)]) t n0 f); eauto.
+    cbn [map snd] in Hfr.
+    rewrite (IH link (skipn n items) (url :: seen) w (adv s [(false, url)]) t n0 f); auto.
     + cbn [run]. rewrite <- files_of_app, firstn_skipn, adv_adv. reflexivity.
     + eapply serves_incl; [exact Hs|]. intros x Hx. right. exact Hx.
     + rewrite nreq_adv. lia.
     + simpl in Hf. lia.
 Qed.
 
-Lemma folders_ok E : forall cuts url items w s t n0 fuel,
+Lemma folders_ok E : forall cuts url items seen w s t n0 fuel,
   serves w n0 t (pages url cuts items) -> cuts_ok cuts = true -> nonempty url = true ->
+  fresh seen (url :: map snd cuts) = true ->
   n0 <= nreq s -> tok s = Some t -> List.length cuts < fuel ->
-  run E w (get_folders fuel (Some url)) s
+  run E w (get_folders fuel seen (Some url)) s
   = (Ok (folders_of items), adv s (api (url :: map snd cuts))).
 Proof.
-  induction cuts as [|[n link] cuts IH]; intros url items w s t n0 fuel Hs Hc Hu Hn Ht Hf;
-    (destruct fuel as [|f]; [simpl in Hf; lia|]).
-  - cbn [get_folders truthy dflt]. rewrite Hu. cbn [run].
+  induction cuts as [|[n link] cuts IH]; intros url items seen w s t n0 fuel Hs Hc Hu Hfr Hn Ht Hf;
+    (destruct fuel as [|f]; [simpl in Hf; lia|]); apply fresh_cons in Hfr as [Hns Hfr].
+  - cbn [get_folders truthy dflt]. rewrite Hu, Hns. cbn [run].
     erewrite get_json_ok; eauto; [|left; reflexivity].
     cbn [page_obj o_ok]. rewrite run_bind. cbn [page_obj o_next o_value]. destruct f; cbn [get_folders truthy run];
       rewrite app_nil_r; reflexivity.
-  - cbn [get_folders truthy dflt]. rewrite Hu. cbn [run].
+  - cbn [get_folders truthy dflt]. rewrite Hu, Hns. cbn [run].
     erewrite get_json_ok; eauto; [|left; reflexivity].
     cbn [page_obj o_ok]. rewrite run_bind. cbn [page_obj o_next o_value].
     simpl in Hc. apply andb_true_iff in Hc as [Hl Hc]. cbn [snd] in Hl.
-    erewrite (IH link (skipn n items) w (adv s [(false, url)]) t n0 f); eauto.
+    cbn [map snd] in Hfr.
+    rewrite (IH link (skipn n items) (url :: seen) w (adv s [(false, url)]) t n0 f); auto.
     + cbn [run]. rewrite <- folders_of_app, firstn_skipn, adv_adv. reflexivity.
     + eapply serves_incl; [exact Hs|]. intros x Hx. right. exact Hx.
     + rewrite nreq_adv. lia.
@@ -152,6 +186,8 @@ Section Walk.
     forall path w s t n0 fuel,
       serves w n0 t (folder_entries E site drive P oid ch ++ flat_map (node_entries E site drive P) ch) ->
       cuts_ok (P oid) = true -> forallb ids_ok ch = true -> forallb (links_ok P) ch = true ->
+      nodup_str_pre (children_url E site drive oid :: map snd (P oid)) = true ->
+      forallb (pages_ok E site drive P) ch = true ->
       n0 <= nreq s -> tok s = Some t -> need P oid ch <= fuel ->
       exists l, run E w (walk E fuel site drive oid path) s = (Ok (spec_files E path ch), adv s (api l)).
 
@@ -161,14 +197,15 @@ Section Walk.
   Lemma walk_folders_ok : forall ch, Forall node_spec ch ->
     forall path w s t n0 f,
       serves w n0 t (flat_map (node_entries E site drive P) ch) ->
-      forallb ids_ok ch = true -> forallb (links_ok P) ch = true ->
+      forallb ids_ok ch = true -> forallb (links_ok P) ch = true -> forallb (pages_ok E site drive P) ch = true ->
       n0 <= nreq s -> tok s = Some t -> list_sum (map (need_node P) ch) <= f ->
       exists l, run E w (walk_folders (walk E f site drive) path (folders_of (map item_of ch))) s
                 = (Ok (flat_map (spec_node E path) ch), adv s (api l)).
   Proof.
-    induction 1 as [|c ch Hc HF IH]; intros path w s t n0 f Hs Hi Hl Hn Ht Hf.
+    induction 1 as [|c ch Hc HF IH]; intros path w s t n0 f Hs Hi Hl Hp Hn Ht Hf.
     - exists []. simpl. rewrite adv_nil. reflexivity.
-    - cbn [forallb] in Hi, Hl. apply andb_true_iff in Hi as [Hi1 Hi2]. apply andb_true_iff in Hl as [Hl1 Hl2].
+    - cbn [forallb] in Hi, Hl, Hp. apply andb_true_iff in Hi as [Hi1 Hi2]. apply andb_true_iff in Hl as [Hl1 Hl2].
+      apply andb_true_iff in Hp as [Hp1 Hp2].
       assert (Hf' : need_node P c + list_sum (map (need_node P) ch) <= f) by exact Hf. clear Hf. rename Hf' into Hf.
       cbn [flat_map] in Hs.
       destruct c as [fi|nm i fc ch'| |];
@@ -177,6 +214,7 @@ Section Walk.
       cbn [walk_folders flat_map].
       cbn [ids_ok] in Hi1. apply andb_true_iff in Hi1 as [Hti Hi1]. rewrite Hti.
       cbn [links_ok] in Hl1. apply andb_true_iff in Hl1 as [Hci Hl1].
+      cbn [pages_ok] in Hp1. apply andb_true_iff in Hp1 as [Hpi Hp1].
       cbn [node_spec] in Hc.
       destruct (Hc (join_path path (dflt nm)) w s t n0 f) as [l1 R1]; auto.
       { eapply serves_app_l. exact Hs. }
@@ -191,15 +229,16 @@ Section Walk.
 
   Lemma walk_children : forall oid ch, Forall node_spec ch -> walk_spec oid ch.
   Proof.
-    intros oid ch HF path w s t n0 fuel Hs Hc Hi Hl Hn Ht Hf.
+    intros oid ch HF path w s t n0 fuel Hs Hc Hi Hl Hnd Hp Hn Ht Hf.
     unfold need in Hf. destruct fuel as [|f]; [lia|].
     cbn [walk]. rewrite run_bind.
     assert (Hs1 : serves w n0 t (pages (children_url E site drive oid) (P oid) (map item_of ch))).
     { eapply serves_app_l. exact Hs. }
-    rewrite (paginate_ok E path (P oid) _ (map item_of ch) w s t n0 f Hs1 Hc (children_url_nonempty oid) Hn Ht);
+    rewrite (paginate_ok E path (P oid) _ (map item_of ch) [] w s t n0 f Hs1 Hc (children_url_nonempty oid)
+               (fresh_nil _ Hnd) Hn Ht);
       [|lia].
     rewrite run_bind.
-    rewrite (folders_ok E (P oid) _ (map item_of ch) w _ t n0 f Hs1 Hc (children_url_nonempty oid));
+    rewrite (folders_ok E (P oid) _ (map item_of ch) [] w _ t n0 f Hs1 Hc (children_url_nonempty oid) (fresh_nil _ Hnd));
       [|rewrite nreq_adv; lia | exact Ht | lia].
     rewrite adv_adv.
     set (l0 := api _ ++ api _).
@@ -300,13 +339,18 @@ Section ListAll.
     unfold server_wf in Hwf. repeat (apply andb_true_iff in Hwf as [Hwf ?]). auto.
   Qed.
 
+  Lemma wf_pages :
+    nodup_str_pre (children_url E site None None :: map snd (P None)) = true
+    /\ forallb (pages_ok E site None P) T = true.
+  Proof. unfold server_wf in Hwf. repeat (apply andb_true_iff in Hwf as [Hwf ?]). auto. Qed.
+
   (* C18_walk_exact *)
   Lemma walk_root_exact : forall w n0 s fuel path,
     healthy_from w n0 E tk table -> n0 <= nreq s -> tok s = Some tk -> need P None T <= fuel ->
     exists l, run E w (walk E fuel site None None path) s = (Ok (spec_files E path T), adv s (api l)).
   Proof.
     intros w n0 s fuel path Hw Hn Ht Hf.
-    destruct wf_parts as (Hi & Hc & Hl & Hnd & Hb).
+    destruct wf_parts as (Hi & Hc & Hl & Hnd & Hb). destruct wf_pages as (Hp0 & Hp).
     eapply (walk_any E site None P Hb None T path w s tk n0 fuel); auto.
     eapply serves_incl; [eapply healthy_from_serves; eauto|].
     unfold table, server_table, child_entries. intros x Hx. right. apply in_or_app. left. exact Hx.
@@ -426,16 +470,18 @@ Proof.
   intros o H1 H2. rewrite (Hs o H1 H2). reflexivity.
 Qed.
 
-Lemma plain_paginate E path : forall fuel cur, plain (list_items_paginated E fuel cur path).
+Lemma plain_paginate E path : forall fuel seen cur, plain (list_items_paginated E fuel seen cur path).
 Proof.
-  induction fuel as [|f IH]; intro cur; cbn [list_items_paginated]; destruct (truthy cur); simpl; auto.
+  induction fuel as [|f IH]; intros seen cur; cbn [list_items_paginated]; destruct (truthy cur); simpl; auto;
+    destruct (mem_str (dflt cur) seen); simpl; auto.
   split; [|intros o H _; rewrite H; reflexivity].
   intro o. destruct (o_ok o); [|exact I]. apply plain_bind; [apply IH | intro; exact I].
 Qed.
 
-Lemma plain_folders : forall fuel cur, plain (get_folders fuel cur).
+Lemma plain_folders : forall fuel seen cur, plain (get_folders fuel seen cur).
 Proof.
-  induction fuel as [|f IH]; intro cur; cbn [get_folders]; destruct (truthy cur); simpl; auto.
+  induction fuel as [|f IH]; intros seen cur; cbn [get_folders]; destruct (truthy cur); simpl; auto;
+    destruct (mem_str (dflt cur) seen); simpl; auto.
   split; [|intros o H _; rewrite H; reflexivity].
   intro o. destruct (o_ok o); [|exact I]. apply plain_bind; [apply IH | intro; exact I].
 Qed.
@@ -755,15 +801,15 @@ Proof.
 Qed.
 
 (* ------------------------------------------------------------------ a server that repeats a nextLink *)
-(* _list_items_paginated / _get_folders_from_url have no guard against a nextLink that was already followed:
+(* PRE-FIX loops (before /repo commit c964930): _list_items_paginated / _get_folders_from_url had no guard against a nextLink that was already followed:
    if the page served at u names u itself as the next page, the loop issues one request per unit of fuel
    and is still not done — for EVERY fuel, i.e. the Python `while current_url:` never ends. *)
 Lemma paginate_self_loop E path u items : forall fuel w s t n0,
   serves w n0 t [(u, page_obj items (Some u))] -> nonempty u = true -> n0 <= nreq s -> tok s = Some t ->
-  exists s', run E w (list_items_paginated E fuel (Some u) path) s = (Raise OutOfFuel, s')
+  exists s', run E w (list_items_paginated_v0 E fuel (Some u) path) s = (Raise OutOfFuel, s')
              /\ nreq s' = nreq s + fuel /\ opened s' + closed s = closed s' + opened s.
 Proof.
-  induction fuel as [|f IH]; intros w s t n0 Hs Hu Hn Ht; cbn [list_items_paginated truthy dflt]; rewrite Hu.
+  induction fuel as [|f IH]; intros w s t n0 Hs Hu Hn Ht; cbn [list_items_paginated_v0 truthy dflt]; rewrite Hu.
   - exists s. cbn [run]. repeat split; lia.
   - cbn [run]. erewrite get_json_ok; eauto; [|left; reflexivity].
     cbn [page_obj o_ok]. rewrite run_bind. cbn [page_obj o_next].
@@ -773,12 +819,146 @@ Qed.
 
 Lemma folders_self_loop u items : forall E fuel w s t n0,
   serves w n0 t [(u, page_obj items (Some u))] -> nonempty u = true -> n0 <= nreq s -> tok s = Some t ->
-  exists s', run E w (get_folders fuel (Some u)) s = (Raise OutOfFuel, s') /\ nreq s' = nreq s + fuel.
+  exists s', run E w (get_folders_v0 fuel (Some u)) s = (Raise OutOfFuel, s') /\ nreq s' = nreq s + fuel.
 Proof.
-  intro E. induction fuel as [|f IH]; intros w s t n0 Hs Hu Hn Ht; cbn [get_folders truthy dflt]; rewrite Hu.
+  intro E. induction fuel as [|f IH]; intros w s t n0 Hs Hu Hn Ht; cbn [get_folders_v0 truthy dflt]; rewrite Hu.
   - exists s. cbn [run]. split; [reflexivity | lia].
   - cbn [run]. erewrite get_json_ok; eauto; [|left; reflexivity].
     cbn [page_obj o_ok]. rewrite run_bind. cbn [page_obj o_next].
     destruct (IH w (adv s [(false, u)]) t n0 Hs Hu) as (s' & R & Hq); [rewrite nreq_adv; lia | exact Ht |].
     rewrite R. exists s'. split; [reflexivity|]. rewrite nreq_adv in Hq. simpl in *. lia.
+Qed.
+
+(* ------------------------------------------------------------------ list_files_created_since / list_files_modified_since *)
+Definition since_pred (E : env) (created : bool) (since : dt) (exts : list str) (m : fmeta) : bool :=
+  range_spec E (Some since) None (if created then m_created m else m_modified m)
+  && match exts with [] => true | _ => existsb (fun e => endswith (lower E (m_name m)) (lower E e)) exts end.
+
+Lemma range_spec_none E x : range_spec E None None x = true.
+Proof. reflexivity. Qed.
+
+Lemma since_matches E created since fps exts m :
+  spec_matches E (since_filter created since fps exts) m = since_pred E created since exts m.
+Proof.
+  unfold spec_matches, since_pred, since_filter, ext_ok, pat_ok. destruct created; cbn [created_after created_before
+    modified_after modified_before path_patterns extensions]; rewrite range_spec_none, ?andb_true_r, ?andb_true_l;
+    destruct exts; reflexivity.
+Qed.
+
+(* ------------------------------------------------------------------ the guarded loops terminate against ANY server *)
+(* all nextLinks the transport ever delivers lie in the finite list U (a server with finitely many page urls;
+   the links may repeat, form cycles, point anywhere in U) *)
+Definition links_in (w : world) (U : list str) : Prop :=
+  forall k r st o, w k r = ROk st (BObj o) -> truthy (o_next o) = true -> In (dflt (o_next o)) U.
+
+(* urls of U not followed yet: the loop's measure *)
+Definition unseen (U seen : list str) : nat := List.length (filter (fun x => negb (mem_str x seen)) U).
+
+Lemma unseen_le U seen u : unseen U (u :: seen) <= unseen U seen.
+Proof.
+  unfold unseen. induction U as [|a U IH]; [simpl; lia|]. simpl in *.
+  destruct (str_eqb a u); destruct (mem_str a seen); simpl in *; lia.
+Qed.
+
+Lemma unseen_dec U seen u : In u U -> mem_str u seen = false -> unseen U (u :: seen) < unseen U seen.
+Proof.
+  intros Hin Hs. induction U as [|a U IH]; [destruct Hin|].
+  pose proof (unseen_le U seen u) as Hle. unfold unseen in *. simpl in *.
+  destruct Hin as [->|Hin].
+  - rewrite str_eqb_refl, Hs. simpl. lia.
+  - specialize (IH Hin). destruct (str_eqb a u); destruct (mem_str a seen); simpl in *; lia.
+Qed.
+
+Lemma unseen_bound U seen : unseen U seen <= List.length U.
+Proof.
+  unfold unseen. induction U as [|a U IH]; simpl; [lia|]. destruct (negb (mem_str a seen)); simpl; lia.
+Qed.
+
+Lemma send_source w b r s bd s' : send w b r s = (Ok bd, s') -> exists k st, w k r = ROk st bd.
+Proof.
+  unfold send. destruct (w (nreq s) r) as [c| | | |stt b0] eqn:Hw; try discriminate.
+  destruct (is_2xx stt); [|discriminate]. intro H; inversion H; subst. eauto.
+Qed.
+
+Lemma send_not_fuel w b r s s' : send w b r s <> (Raise OutOfFuel, s').
+Proof.
+  unfold send. destruct (w (nreq s) r) as [c| | | |stt b0]; try discriminate. destruct (is_2xx stt); discriminate.
+Qed.
+
+Lemma fetch_token_not_fuel E w s s' : fetch_token E w s <> (Raise OutOfFuel, s').
+Proof.
+  unfold fetch_token. destruct (send w true _ s) as [[bd|e] s1] eqn:Hs.
+  - destruct bd as [o| | |]; [destruct (truthy (o_token o))|..]; discriminate.
+  - intro H; inversion H; subst. eapply send_not_fuel; eauto.
+Qed.
+
+Lemma get_json_source E w u s o s' : get_json E w u s = (Ok o, s') -> exists k r st, w k r = ROk st (BObj o).
+Proof.
+  unfold get_json. destruct (ensure_token E w s) as [[t|e] s1]; [|discriminate].
+  destruct (send w false _ s1) as [[bd|e] s2] eqn:Hs; [|discriminate].
+  destruct bd as [o'| | |]; try discriminate. intro H; inversion H; subst.
+  destruct (send_source _ _ _ _ _ _ Hs) as (k & st & Hk). eauto.
+Qed.
+
+Lemma get_json_not_fuel E w u s s' : get_json E w u s <> (Raise OutOfFuel, s').
+Proof.
+  unfold get_json, ensure_token. destruct (tok s) as [t|].
+  - destruct (send w false _ s) as [[bd|e] s2] eqn:Hs.
+    + destruct bd; discriminate.
+    + intro H; inversion H; subst. eapply send_not_fuel; eauto.
+  - destruct (fetch_token E w s) as [[t|e] s1] eqn:Hf.
+    + destruct (send w false _ s1) as [[bd|e] s2] eqn:Hs.
+      * destruct bd; discriminate.
+      * intro H; inversion H; subst. eapply send_not_fuel; eauto.
+    + intro H; inversion H; subst. eapply fetch_token_not_fuel; eauto.
+Qed.
+
+Lemma paginate_terminates E path w U : links_in w U ->
+  forall fuel seen cur s,
+    (truthy cur = true -> In (dflt cur) U) -> unseen U seen < fuel ->
+    fst (run E w (list_items_paginated E fuel seen cur path) s) <> Raise OutOfFuel.
+Proof.
+  intro HL. induction fuel as [|f IH]; intros seen cur s Hc Hm; [lia|].
+  cbn [list_items_paginated]. destruct (truthy cur) eqn:Htc; [|simpl; discriminate].
+  destruct (mem_str (dflt cur) seen) eqn:Hms; [simpl; discriminate|].
+  cbn [run]. destruct (get_json E w (dflt cur) s) as [[o|e] s1] eqn:Hg.
+  - destruct (o_ok o); [|simpl; discriminate]. rewrite run_bind.
+    pose proof (IH (dflt cur :: seen) (o_next o) s1) as Hrec.
+    destruct (run E w (list_items_paginated E f (dflt cur :: seen) (o_next o) path) s1) as [[r|e] s2].
+    + simpl. discriminate.
+    + simpl in *. apply Hrec.
+      * intro Hn. destruct (get_json_source _ _ _ _ _ _ Hg) as (k & r & st & Hk). eapply HL; eauto.
+      * pose proof (unseen_dec U seen (dflt cur) (Hc eq_refl) Hms). lia.
+  - simpl. intro H; inversion H; subst. eapply get_json_not_fuel; eauto.
+Qed.
+
+Lemma folders_terminates E w U : links_in w U ->
+  forall fuel seen cur s,
+    (truthy cur = true -> In (dflt cur) U) -> unseen U seen < fuel ->
+    fst (run E w (get_folders fuel seen cur) s) <> Raise OutOfFuel.
+Proof.
+  intro HL. induction fuel as [|f IH]; intros seen cur s Hc Hm; [lia|].
+  cbn [get_folders]. destruct (truthy cur) eqn:Htc; [|simpl; discriminate].
+  destruct (mem_str (dflt cur) seen) eqn:Hms; [simpl; discriminate|].
+  cbn [run]. destruct (get_json E w (dflt cur) s) as [[o|e] s1] eqn:Hg.
+  - destruct (o_ok o); [|simpl; discriminate]. rewrite run_bind.
+    pose proof (IH (dflt cur :: seen) (o_next o) s1) as Hrec.
+    destruct (run E w (get_folders f (dflt cur :: seen) (o_next o)) s1) as [[r|e] s2].
+    + simpl. discriminate.
+    + simpl in *. apply Hrec.
+      * intro Hn. destruct (get_json_source _ _ _ _ _ _ Hg) as (k & r & st & Hk). eapply HL; eauto.
+      * pose proof (unseen_dec U seen (dflt cur) (Hc eq_refl) Hms). lia.
+  - simpl. intro H; inversion H; subst. eapply get_json_not_fuel; eauto.
+Qed.
+
+(* a link that was already followed makes the guarded loop raise the client's request error for that url *)
+Lemma paginate_self_loop_guarded E path u items : forall w s t n0 fuel,
+  serves w n0 t [(u, page_obj items (Some u))] -> nonempty u = true -> n0 <= nreq s -> tok s = Some t -> 2 <= fuel ->
+  run E w (list_items_paginated E fuel [] (Some u) path) s = (Raise (RequestError None u), adv s [(false, u)]).
+Proof.
+  intros w s t n0 fuel Hs Hu Hn Ht Hf. destruct fuel as [|[|f]]; try lia.
+  cbn [list_items_paginated truthy dflt mem_str]. rewrite Hu. cbn [run].
+  erewrite get_json_ok; eauto; [|left; reflexivity].
+  cbn [page_obj o_ok]. rewrite run_bind. cbn [page_obj o_next list_items_paginated truthy dflt mem_str].
+  rewrite Hu, str_eqb_refl. reflexivity.
 Qed.
